@@ -14,12 +14,13 @@ KNOWN_DEADEND = "spurious-raise:dead-end-step-cancelled-by-close"
 
 
 def _worker(args):
-    desc, seed, slow = args
+    desc, seed, slow = args[:3]
+    order = args[3] if len(args) > 3 else None
     os.environ["STREAMFLOW_VERIF"] = "1"
     import logging
     logging.disable(logging.CRITICAL)
     from vh.sut import dflow
-    r, e = aio.run(dflow.run_once(desc, seed=seed, slow_ports=slow), timeout=150)
+    r, e = aio.run(dflow.run_once(desc, seed=seed, slow_ports=slow, order=order), timeout=150)
     if e is not None:
         return {"harness_error": repr(e), "desc": desc, "seed": seed}
     r["seed"] = seed
@@ -42,6 +43,20 @@ def descriptions(ctx):
             if fs:
                 descs.append(rng.choice(fs))
     return descs
+
+
+def job_keys(d):
+    """(step, tag) of every job the network runs (from the denotation of its streams)."""
+    streams = dt.expected(d)["streams"]
+    keys = []
+    for s in d["steps"]:
+        if s["kind"] != "exec":
+            continue
+        tags = set(streams.get(s["ins"][0], {}))
+        for p in s["ins"][1:]:
+            tags &= set(streams.get(p, {}))
+        keys += [(s["name"], list(t)) for t in sorted(tags)]
+    return keys
 
 
 def model_check(ctx, descs):
@@ -107,8 +122,23 @@ def run_all(ctx, focus):
             slow = ["__deploy__"]
         for sd in range(seeds):
             jobs.append((d, ctx.seed * 1000 + sd, slow, k))
+    # imposed job-completion orders (B-env): every permutation of the jobs of a network (bounded), realised with gates
+    import itertools
+    for k, d in enumerate(descs):
+        if "jobs" not in d["classes"] or "dead-end" in d["classes"] or "deploy-lag" in d["classes"]:
+            continue
+        keys = job_keys(d)
+        if not 2 <= len(keys) <= 4:
+            continue
+        perms = list(itertools.permutations(keys))
+        rngp = ctx.rng("perms-" + d["name"])
+        rngp.shuffle(perms)
+        for pi, perm in enumerate(perms[:ctx.pick(3, 24)]):
+            jobs.append((d, ctx.seed * 1000 + 500 + pi, [], k, [list(x) for x in perm]))
     with ProcessPoolExecutor(max_workers=min(12, os.cpu_count() or 4)) as ex:
-        runs = list(ex.map(_worker, [j[:3] for j in jobs], chunksize=2))
+        runs = list(ex.map(_worker, [(j[0], j[1], j[2], j[4] if len(j) > 4 else None) for j in jobs], chunksize=2))
+    jobs = [j[:4] for j in jobs]
+    ctx.count("runs_with_imposed_job_order", sum(1 for r in runs if r.get("order")))
     # ---- 3. trace validation: one TLC batch for all runs of all networks
     traces, probs = [], []
     for (d, sd, _, k), r in zip(jobs, runs):
